@@ -16,7 +16,7 @@ from checks import paths as pth
 from checks.common import real_at
 
 CASES_QUICK = [("commit_raw", 1), ("commit_raw", 2), ("commit_raw", 3), ("commit_checked", 2), ("opening", 0),
-               ("pp_checked", 1), ("polynomial", 3), ("verifier", 0), ("prover", 3)]
+               ("pp_checked", 1), ("pp_checked", 0), ("polynomial", 3), ("verifier", 0), ("prover", 3)]
 CASES_THOROUGH = CASES_QUICK + [("commit_raw", 4), ("commit_raw", 6), ("commit_checked", 4), ("pp_checked", 2),
                                 ("polynomial", 6), ("prover", 0)]
 
@@ -51,7 +51,25 @@ def obligations(run):
         accepted = 0
         for i, pj in enumerate(dec["paths"]):
             if pj["panic"] is not None:
-                run.inconclusive.append(f"validity/{which}{n}/path{i}: decoder panicked on the symbolic input: {pj['panic']}")
+                # a path on which the decoder (or the first use of what it accepted) panics must be
+                # infeasible; a model is replayed on the unpatched build
+                P = pth.Path(pj, nodes)
+                roots = []
+                conds = P.cond_smt(ctx, roots)
+                lines = smt.smt_defs(roots + roots_e)
+
+                def rpp(model, args=args, elems=elems):
+                    env = {}
+                    for e in elems:
+                        for k in ("t", "c", "kappa"):
+                            v = model.get(smt.vname(f"{e['name']}_{k}"))
+                            if v is not None:
+                                env[f"{e['name']}_{k}"] = "%064x" % (1 if v % smt.R else 0)
+                    rb = real_at(args, env, run.seed)
+                    r = rb["outputs"]["decode"]["paths"][0]
+                    return r.get("panic") is not None, {"driver": args, "env": env, "real": r}
+                run.obligation(f"validity/{which}{n}/path{i}/panic-infeasible", lines, conds + restrict, "unsat",
+                               "panic-freedom", replay=rpp, meta={"panic": pj["panic"]})
                 continue
             if not pj["result"]["accepted"]:
                 continue
@@ -97,7 +115,7 @@ def obligations(run):
                 return bad, {"driver": args, "env": env, "real": res, "invalid_element_present": o["invalid_element_present"]}
             run.obligation(f"validity/{which}{n}/path{i}/accepted-implies-valid", lines, conds + [goal], "unsat",
                            "decoder-validity", replay=rp)
-        if accepted == 0:
+        if accepted == 0 and not (which == "pp_checked" and n == 0):
             run.inconclusive.append(f"validity/{which}{n}: no accepting path (vacuous)")
         table.append({"decoder": which, "elements": len(elems), "paths": len(dec["paths"]), "accepting": accepted})
     run.extra["validity_cases"] = table
